@@ -14,7 +14,8 @@ def Agree (r : Recorder) (c : Client) : Prop :=
 
 theorem agree_init : Agree {} {} := by simp [Agree]
 
-theorem agree_apply {r : Recorder} {c : Client} (h : Agree r c) (op : Op) : Agree (r.apply op) (c.apply op) := by
+theorem agree_apply {r : Recorder} {c : Client} (h : Agree r c) (op : Op) :
+    Agree (r.apply (c.accepts op) op) (c.apply op) := by
   obtain ⟨hw, hs, hz, hd⟩ := h
   cases op with
   | header code =>
@@ -29,9 +30,18 @@ theorem agree_apply {r : Recorder} {c : Client} (h : Agree r c) (op : Op) : Agre
   | write n =>
     unfold Recorder.apply Client.apply
     by_cases hcw : c.wrote = true
-    · simp [Agree, hcw, hs, hz]
+    · by_cases hok : c.accepts (.write n) = true
+      · simp [Agree, hcw, hs, hz, hok]
+      · have hok' : c.accepts (.write n) = false := by simpa using hok
+        simp [Agree, hcw, hs, hz, hok']
     · have hcw' : c.wrote = false := by simpa using hcw
-      simp [Agree, hcw', hz, hs, hd hcw']
+      by_cases hok : c.accepts (.write n) = true
+      · simp [Agree, hcw', hz, hs, hd hcw', hok]
+      · have hok' : c.accepts (.write n) = false := by simpa using hok
+        simp [Agree, hcw', hz, hs, hd hcw', hok']
+  | declare n =>
+    unfold Recorder.apply Client.apply
+    exact ⟨hw, hs, hz, hd⟩
 
 theorem agree_runOps : ∀ (ops : List Op) (r : Recorder) (c : Client), Agree r c →
     Agree (runOps ops (r, c)).1 (runOps ops (r, c)).2 := by
